@@ -11,7 +11,7 @@ import props.ppu_common as pc
 
 MANIFEST = {
     "level": "other",
-    "text": "Whole-run determinism is a two-run property; this technique decides it as determinacy of every function in the frame-loop call graph: (1) for every per-cycle and register-level entry point of every component (timer, controller, interrupts, RTC, the five cartridge controllers, Mapper.Read/Write/EndMachineCycle, all of oam, ppu.EndMachineCycle with the renderer inlined and the PPU register handlers, audio.EndMachineCycle and all sound register handlers, and the CPU's ExecuteMachineCycle for every defined opcode with bus reads as declared inputs) the real code is executed symbolically with every callee inlined and the resulting post-state, return value and ghost output trace are checked to be terms over the pre-state symbols and the declared inputs only - the engine introduces a fresh unconstrained symbol for anything else (unknown external, channel receive, map iteration, uninitialised memory), so none reaching the post-state means the post-state is a function of the pre-state; (2) an SSA scan of every function reachable from gameboy.New, runFrame, Run and ButtonAction finds no use of time, math/rand, crypto/rand, os environment/process state, unsafe, goroutines, blocking or multi-way select, channel receive, map iteration or pointer-to-integer conversion. By induction over the frame loop (C26) two runs from equal states with equal inputs stay equal, in one process or in different ones.",
+    "text": "Whole-run determinism is a two-run property; this technique decides it as determinacy of every function in the frame-loop call graph: (1) for every per-cycle and register-level entry point of every component (timer, controller, interrupts, RTC, the five cartridge controllers, Mapper.Read/Write/EndMachineCycle, all of oam, ppu.EndMachineCycle with the renderer inlined and the PPU register handlers, audio.EndMachineCycle and all sound register handlers, and the CPU's ExecuteMachineCycle for every defined opcode with bus reads as declared inputs) the real code is executed symbolically with every callee inlined and the resulting post-state, return value and ghost output trace are checked to be terms over the pre-state symbols and the declared inputs only - the engine introduces a fresh unconstrained symbol for anything else (unknown external, channel receive, map iteration, uninitialised memory), so none reaching the post-state means the post-state is a function of the pre-state; (2) an SSA scan of every function reachable from gameboy.New, runFrame, Run and ButtonAction finds no use of time, math/rand, crypto/rand, os environment/process state, unsafe, goroutines, blocking or multi-way select, channel receive, map iteration or pointer-to-integer conversion. By induction over the frame loop (C26) two runs from equal states with equal inputs stay equal, in one process or in different ones. Power-on: the real gameboy.New is executed symbolically for every Config (ROM file read and cgo outputs abstracted): every scalar reachable from the returned machine is built from constants, the Config and the ROM bytes only, and the machine holds no reference to any package-level object (which an earlier run in the process could have modified).",
     "note": "Not a proof about the Go runtime or the cgo display/speakers packages (excluded). The single map iteration in the code base (initInstructionArray building the debug metadata table at package init) writes disjoint array slots per key; its order-independence is an assumption, and the table is read only under debugCPU.",
     "technique": "per-function determinacy check on the strongest postcondition computed from the real go/ssa (syntactic free-symbol check) + SSA scan for nondeterminism sources",
     "design_ref": "DESIGN.md section 4 C24",
@@ -193,7 +193,9 @@ def cpu_determinacy(chunk, idx):
 
 def tasks(ctx):
     p = ctx.prog
-    ts = [scan_lemma("scan:no-nondeterminism-source-in-the-frame-loop-call-graph", nondet_scan, ["call graph of New/runFrame/Run/ButtonAction (SSA scan)"])]
+    import props.wiring as wr
+    ts = [scan_lemma("scan:no-nondeterminism-source-in-the-frame-loop-call-graph", nondet_scan, ["call graph of New/runFrame/Run/ButtonAction (SSA scan)"]),
+          LemmaTask("determinate:power-on", wr.power_on_determinacy, ["gameboy.New", "memory.New", "cpu.New", "ppu.New", "audio.New", "(*cpu.CPU).Initialize"])]
     ovA = {"Audio.ch2.sweep": nil_value}
     fns = []
     for f in p.funcs.values():
